@@ -110,8 +110,11 @@ def main():
             import hashlib
             tag = hashlib.sha1(os.path.realpath(wt).encode()).hexdigest()[:10]
             shutil.rmtree(f"/tmp/sv/verif-alt-{tag}", ignore_errors=True)
-        results[mid] = res
-        json.dump(results, open(out_path, "w"), indent=1)
+        # read-modify-write: several instances may run on disjoint subsets
+        cur = json.load(open(out_path)) if os.path.exists(out_path) else {}
+        cur[mid] = res
+        results = cur
+        json.dump(cur, open(out_path, "w"), indent=1)
         print(mid, prop, "builds" if res.get("builds") else "NO-BUILD", "suite-ok" if res.get("suite_passes") else "suite-FAILS", "detected_by", res.get("detected_by"))
     print()
     print("| mutant | property | change | builds | repository suite | quick check |")
